@@ -30,6 +30,8 @@ def main():
     sys.stdout = open(os.devnull, 'w')
     mod = importlib.import_module('rtverif.props.%s' % pid.lower())
     P = mod.PROP
+    from rtverif.props import base as _base
+    _base.limit_resources()
     ctx = runner.Ctx(pid, 'quick', seed)
     rng = random.Random(seed)
     groups = collections.OrderedDict()
@@ -37,7 +39,10 @@ def main():
     for i in range(n):
         case = P.gen(rng, ctx)
         case = P.normalise(case)
-        v = P.judge(case)
+        v, t_o = _base.guarded(P.judge, 30, case)
+        if t_o:
+            out.write('WATCHDOG %r\n' % (P.brief(case),))
+            continue
         if v.skip or not v.viol:
             continue
         nviol += 1
